@@ -227,6 +227,7 @@ PROPS["C08"] = {
         Job("soyhtml", "H_pure", "0..2,0..1,true,0..7", workers=8),
         Job("soyhtml", "H_pure", "3,0,false,0..6", workers=8, note="through a translating catalogue"),
         Job("soyhtml", "H_pure", "4,0,false,0..5", workers=8, note="deep recursion and data= maps with params"),
+        Job("soyhtml", "H_pure", "0..1,0..1,false,8", workers=8, note="after a render of a template that binds only block-form lets at its top level"),
         Job(".", "H_renderAfterJS", "0..1,false", workers=8, note="JS generation between renders"),
         Job(".", "H_renderAfterJS", "0..1,true", workers=8, note="JS generation between renders"),
     ],
@@ -249,6 +250,7 @@ PROPS["C09"] = {
         Job("soyhtml", "H_pure", "0..2,0..1,true,0..7", workers=8),
         Job("soyhtml", "H_pure", "3,0,false,0..6", workers=8, note="through a translating catalogue"),
         Job("soyhtml", "H_pure", "4,0,false,0..5", workers=8, note="deep recursion and data= maps with params"),
+        Job("soyhtml", "H_pure", "0..1,0..1,false,8", workers=8, note="after a render of a template that binds only block-form lets at its top level"),
         Job(".", "H_renderAfterJS", "0..1,false", workers=8, note="JS generation between renders"),
         Job(".", "H_renderAfterJS", "0..1,true", workers=8, note="JS generation between renders"),
         Job("soyhtml", "H_renderRace", "0..4,0,0..2,0..1", workers=16, note="two renders at once on a cold bundle, happens-before check"),
@@ -394,6 +396,7 @@ PROPS["C02"] = {
         Job("soyhtml", "H_forRange", "1..3", workers=16),
         Job("soyhtml", "H_callNames", "0..7", workers=8),
         Job("soyhtml", "H_switchLit", "0..8", workers=8),
+        Job("soyhtml", "H_css", "0..2,0..2", workers=8, note="css command with a base expression of any value"),
         Job("soyhtml", "H_programBlocks", "3,4", tier="thorough", workers=16, timeout=3000),
         Job("soyhtml", "H_program", "2,3,1", tier="thorough", workers=16, timeout=5000),
     ],
